@@ -58,6 +58,30 @@ class NodeSet:
         x = x.value if isinstance(x, V.Opt) else x
         return self.contains(x.term)
 
+    def sym_setcomp(self, interp, e, g, frame):
+        """{f(node) for node in self}  with a tensor-valued f  ->  SymSet of tensors (the image of the node set)"""
+        import ast
+        from .interp import Frame
+        cx = interp.cx
+        if g.ifs or not isinstance(g.target, ast.Name):
+            raise Unsupported("filtered / destructuring set comprehension over a node set")
+        n0 = cx.fresh_const("cn", NodeS)
+        f2 = Frame(frame.func, frame.module, parent=frame, cls=frame.cls)
+        f2.qual = getattr(frame, "qual", "?")
+        f2.self_obj = frame.self_obj
+        interp.assign(g.target, NodeRef(n0), f2)
+        r0 = interp.eval(e.elt, f2)
+        if not isinstance(r0, V.TRef):
+            raise Unsupported("set comprehension over a node set whose element is not a tensor")
+        img = lambda n: z3.substitute(r0.ref, (n0, n))  # noqa: E731
+        S = V.SymSet(cx, "image")
+        w = cx.fresh_func("imgw", V.TenS, NodeS)
+        x, t = z3.Const("x!q", NodeS), z3.Const("t!q", V.TenS)
+        cx.assume(V.forall([x], z3.Implies(self.contains(x), S.contains(img(x)))), tag="image of a node set")
+        cx.assume(V.forall([t], z3.Implies(S.contains(t), z3.And(self.contains(w(t)), img(w(t)) == t)), patterns=[S.contains(t)]),
+                  tag="image of a node set")
+        return S
+
 
 class EdgeSet:
     """set of (node, output index) pairs"""
